@@ -1068,8 +1068,18 @@ pub fn run(prop: &str, tier: &str, report: &mut Report) {
             capped = true;
             break;
         }
-        let jobs: Vec<Value> = frontier.iter().map(|j| json!({"scenario": scs[j.sc], "prefix": j.prefix})).collect();
-        let results = common::pool_map("e2", &extra, common::ncpu(), jobs);
+        let mut results: Vec<Value> = Vec::with_capacity(frontier.len());
+        for chunk in frontier.chunks(4000) {
+            if t0.elapsed().as_secs() > cap_s {
+                capped = true;
+                break;
+            }
+            let jobs: Vec<Value> = chunk.iter().map(|j| json!({"scenario": scs[j.sc], "prefix": j.prefix})).collect();
+            results.extend(common::pool_map("e2", &extra, common::ncpu(), jobs));
+        }
+        if capped {
+            frontier.truncate(results.len());
+        }
         let mut next = vec![];
         for (j, r) in frontier.iter().zip(results.iter()) {
             let sc = &scs[j.sc];
@@ -1122,6 +1132,9 @@ pub fn run(prop: &str, tier: &str, report: &mut Report) {
             }
         }
         generation += 1;
+        if capped {
+            break;
+        }
         frontier = next;
         let _ = generation;
     }
